@@ -443,6 +443,63 @@ class FunctionVerifier:
         # sub-array assignment a[i] = other_array / scalar
         self.store_slice(st, SArr(a.loc, full), None, None, val, node, prog)
 
+    def column_mask_select(self, st, base, mask, node, prog):
+        """a[:, mask] on a 2-D array with a 1-D boolean mask over the columns: the selected columns in order
+        (column BCOUNT(mask, 0, c) of the result is column c of a).  A copy."""
+        from . import externals as X
+
+        X.USED.add("boolean mask selection a[:, mask] along axis 1 of a 2-D array: the selected columns in order")
+        if self.arr_ndim(st, mask) != 1:
+            raise VerifError("column mask selection needs a 1-D mask")
+        shp = self.arr_shape(st, base)
+        n = self.arr_shape(st, mask)[0]
+        if prog:
+            self.oblige("shape-match", self.stmt_anchor(node), shp[1] == n, st, node)
+        sd = self.E.db.specs.get("BCOUNT")
+        if sd is None:
+            raise VerifError("spec BCOUNT missing")
+        mt0 = self.arr_term(st, mask)
+        mt = self.fresh("cmask", z3.ArraySort(I, B))
+        p_ = self.fresh_int("p")
+        st.assume(z3.ForAll([p_], z3.Select(mt, p_) == z3.Select(mt0, p_), patterns=[z3.Select(mt, p_)]))
+        named_mask = SArrVal("b1", [n], {"v": mt})
+        cnt = self.E.spec_app(self, st, sd, [named_mask, SInt(0), SInt(n)]).e
+        st.assume(z3.And(cnt >= 0, cnt <= n))
+        o = st.heap[base.loc]
+        x = self.fresh_int("x")
+        comps = {}
+        rank = self.E.spec_app(self, st, sd, [named_mask, SInt(0), SInt(p_)]).e
+        for c, t in o.comps.items():
+            src = nested_select(t, base.prefix)
+            r = self.fresh("cmsel_" + c, src.sort())
+            st.assume(z3.ForAll([x, p_], z3.Implies(z3.And(p_ >= 0, p_ < n, z3.Select(mt, p_)), z3.Select(z3.Select(r, x), rank) == z3.Select(z3.Select(src, x), p_)), patterns=[z3.Select(z3.Select(src, x), p_)]))
+            comps[c] = r
+        res = self.new_loc(st, o.dtype, [shp[0], cnt], comps, name="cmsel")
+        if "v" in comps and not is_float_dtype(o.dtype) and not is_bool_dtype(o.dtype):
+            self.assume_dtype_range(st, o.dtype, comps["v"], 2)
+        self.view_copies.add(res.loc)
+        self.view_src[res.loc] = (base.loc, o)
+        return res
+
+    def write_back_column(self, st, view):
+        """after a callee modified the column view  base[:, j]  (modelled as a copy): base[x, j] := view[x] for all rows x,
+        every other cell of base unchanged.  The new contents of base are a named array with a pointwise definition."""
+        base, j = self.view_col[view.loc]
+        src = self.view_src.get(view.loc)
+        cur = st.heap.get(base.loc)
+        if src is None or cur is None or any(not cur.comps[c].eq(src[1].comps[c]) for c in cur.comps):
+            raise VerifError("column view written by a callee after its base array changed")
+        vo = st.heap[view.loc]
+        x = self.fresh_int("x")
+        c_ = self.fresh_int("c")
+        comps = {}
+        for c, t in cur.comps.items():
+            nb = self.fresh("colwb_%s" % c, t.sort())
+            st.assume(z3.ForAll([x, c_], z3.Select(z3.Select(nb, x), c_) == z3.If(c_ == j, z3.Select(vo.comps[c], x), z3.Select(z3.Select(t, x), c_)), patterns=[z3.Select(z3.Select(nb, x), c_)]))
+            comps[c] = nb
+        st.heap[base.loc] = cur.with_comps(comps)
+        self.view_src[view.loc] = (base.loc, st.heap[base.loc])
+
     def store_slice(self, st, a, lo, hi, val, node=None, prog=True):
         if a.loc in self.view_copies and prog:
             raise VerifError("store through a slice view is not modelled (views are read-only copies)")
@@ -1015,6 +1072,10 @@ class FunctionVerifier:
             self.view_copies.add(a_.loc)
             self.view_src[a_.loc] = (base.loc, o)
             return a_
+        if len(elts) == 2 and len(shp) == 2 and isinstance(elts[0], ast.Slice) and elts[0].lower is None and elts[0].upper is None and not isinstance(elts[1], ast.Slice):
+            jv = self.ev(elts[1], st, prog)
+            if isinstance(jv, SArr) and is_bool_dtype(st.heap[jv.loc].dtype):
+                return self.column_mask_select(st, base, jv, node, prog)
         if len(elts) == 2 and isinstance(elts[0], ast.Slice) and elts[0].lower is None and elts[0].upper is None and not isinstance(elts[1], ast.Slice):
             j = self.as_int(self.ev(elts[1], st, prog)).e
             if prog:
@@ -1024,6 +1085,10 @@ class FunctionVerifier:
             a_ = self.new_loc(st, o.dtype, [shp[0]] + list(shp[2:]), comps, name="col")
             self.view_copies.add(a_.loc)
             self.view_src[a_.loc] = (base.loc, o)
+            if len(shp) == 2 and not base.prefix:
+                if not hasattr(self, "view_col"):
+                    self.view_col = {}
+                self.view_col[a_.loc] = (base, j)
             return a_
         if len(elts) == 2 and len(shp) == 2 and isinstance(elts[0], ast.Slice) and elts[0].lower is None and elts[0].upper is None and elts[0].step is None and isinstance(elts[1], ast.Slice) and elts[1].step is None:
             # a[:, lo:hi] on a 2-D array: all rows, a contiguous range of columns
